@@ -120,7 +120,10 @@ def judge(trace, name, mod, tmp, alt_privs=None, split=None):
         p0 = backends.FIELDS[name]
         backends.reset_state(name, mod)
         vars_ = backends.apply_trace(trace[:split], mod)
-        mod.prove()
+        if split % 2:
+            backends.failed_prove(mod, tmp, ("computation.zkif", "circuit.zkif"))     # the first proving step fails half-way and is caught
+        else:
+            mod.prove()
         backends.apply_trace(trace[split:], mod, vars_)
         msg = backends.prove_over_stale(mod, tmp, ("computation.zkif", "circuit.zkif"))
         if msg:
